@@ -82,7 +82,7 @@ func TestC10(t *testing.T) {
 		return
 	}
 	if os.Getenv("C10_ONLY") == "swarm" {
-		composition(r, r.Pick(120, 400))
+		composition(r, r.Pick(150, 6000))
 		return
 	}
 	functionLevel(r)
@@ -90,7 +90,7 @@ func TestC10(t *testing.T) {
 	crashPoints(r)
 	datastoreErrors(r)
 	loadErrors(r)
-	composition(r, r.Pick(120, 400))
+	composition(r, r.Pick(150, 6000))
 
 	r.Require("fn.must_refuse.addr", 1000)
 	r.Require("fn.must_refuse.subnet", 1000)
